@@ -7,7 +7,7 @@ from mbox import U
 import c17
 
 NAMES = [None, "end\\", "\\", 'q"', "a," + chr(0x422), "x\\y\\", "Kayo", "Doe, John", "é", "a  b", 'q"x', "back\\slash", " pad ", "", "9", "a\tb", "<x>", "a@b", "a\0b", "a\nb", "=?utf-8?b?QQ==?="]
-ADDRS = ["a@x.org", "b@y.org", "user.name+tag@sub.example.com", "é@example.com", "u@é.example", '"a b"@example.com', "x@[127.0.0.1]", "c@z.org", "-f@example.com"]
+ADDRS = ["a@x.org", "b@y.org", "user.name+tag@sub.example.com", "é@example.com", "u@é.example", '"a b"@example.com', "x@[127.0.0.1]", "c@z.org", "-f@example.com", "a@X.ORG", "A@x.org"]
 KINDS = ["from", "to", "cc", "bcc", "reply_to", "sender"]
 
 
@@ -32,7 +32,11 @@ def gen(ctx):
              [("from", None, "a@x.org"), ("from", None, "b@x.org"), ("sender", None, "s@x.org"), ("to", None, "c@x.org")],
              [("from", None, "a@x.org"), ("bcc", None, "h@x.org")], [("from", None, "a@x.org"), ("bcc", None, "h@x.org"), ("keepbcc",)],
              [("from", None, "a@x.org"), ("envelope", None, ["e@x.org"])], [("from", None, "a@x.org"), ("to", None, "t@x.org"), ("envelope", "r@x.org", ["e1@x.org", "e2@x.org"]), ("bcc", None, "h@x.org")],
-             [("sender", None, "s@x.org"), ("to", None, "t@x.org")], [("from", None, "a@x.org"), ("sender", None, "s1@x.org"), ("sender", None, "s2@x.org"), ("cc", None, "c@x.org")]]
+             [("sender", None, "s@x.org"), ("to", None, "t@x.org")],
+             # a sender that names the author's mailbox: as given (same octets), with another letter case in the domain, in the local part
+             [("from", None, "a@x.org"), ("sender", None, "a@x.org"), ("to", None, "t@x.org")], [("from", None, "a@x.org"), ("sender", None, "a@X.ORG"), ("to", None, "t@x.org")],
+             [("sender", "S", "a@X.ORG"), ("from", "F", "a@x.org"), ("to", None, "t@x.org")], [("from", None, "a@x.org"), ("sender", None, "A@x.org"), ("to", None, "t@x.org")],
+             [("from", None, "a@x.org"), ("to", None, "a@x.org"), ("cc", None, "a@X.ORG"), ("bcc", None, "A@x.org")], [("from", None, "a@x.org"), ("sender", None, "s1@x.org"), ("sender", None, "s2@x.org"), ("cc", None, "c@x.org")]]
     n = 400 if ctx.tier == "quick" else 20000
     for _ in range(n):
         ops = []
